@@ -85,7 +85,8 @@ def run_case(case, ctx):
 			gzs = []
 			for i in range(nq):
 				n_, gz = nm(i, for_list)
-				rel.append(os.path.join(f'qd{i}', n_))
+				# every other entry lies directly in the base directory (its list-file line then starts with the file name itself)
+				rel.append(n_ if (i % 2 == 0 and n_ not in rel) else os.path.join(f'qd{i}', n_))
 				gzs.append(gz)
 			qpaths = H.write_genomes(os.path.join(d, 'qbase'), qgen, rel, gz=gzs)
 			qlabels = [H.expected_label(p) for p in rel]
@@ -123,7 +124,7 @@ def run_case(case, ctx):
 			gzs = []
 			for i in range(nr):
 				n_, gz = nm(i + 11, for_list)
-				rel.append(os.path.join(f'rd{i}', n_))
+				rel.append(n_ if (i % 2 == 0 and n_ not in rel) else os.path.join(f'rd{i}', n_))
 				gzs.append(gz)
 			rpaths = H.write_genomes(os.path.join(d, 'rbase'), rgen, rel, gz=gzs)
 			rlabels = [H.expected_label(p) for p in rel]
@@ -227,8 +228,9 @@ def run_case(case, ctx):
 
 STEM = st.one_of(
 	st.text(alphabet='abcXYZ019._- ,', min_size=1, max_size=10),
-	st.text(alphabet='abc ,"\'üé日本()[];=&%', min_size=1, max_size=8),
-	st.sampled_from(['genome', 'a,b', 'x y', '"q"', 'ü', 'sample.1', 'GCF_000005845.2_ASM584v2_genomic', '-dash', 'a.b.c', ' lead', 'trail ']),
+	st.text(alphabet='abc ,"\'üé日本()[];=&%#!~@', min_size=1, max_size=8),
+	st.sampled_from(['genome', 'a,b', 'x y', '"q"', 'ü', 'sample.1', 'GCF_000005845.2_ASM584v2_genomic', '-dash', 'a.b.c', ' lead', 'trail ',
+	                 '#12_S1', '# note', ';semi', '//c', '%x', '!bang', '~tilde', '@at', '$HOME', '*star', '?q', '[a]', '{b}', '\\back', '`tick`']),
 )
 EXT = st.sampled_from(['.fasta', '.fa', '.fna', '.ffn', '.faa', '.frn', '.txt', '', '.fasta', '.fa'])
 
